@@ -5355,6 +5355,10 @@ write_function_instance(ostream &out, FunctionRemap *remap,
 
   int num_params = 0;
 
+  // Remember how many arguments the caller may have passed: max_num_args is
+  // clamped to what this remap takes below.
+  const int max_passed_args = max_num_args;
+
   if ((remap->_flags & FunctionRemap::F_explicit_args) == 0) {
     num_params = max_num_args;
     if (remap->_has_this) {
@@ -6713,6 +6717,17 @@ write_function_instance(ostream &out, FunctionRemap *remap,
       }
       break;
     }
+
+  } else if (max_passed_args > 0 && max_num_args == 0 &&
+             (remap->_flags & FunctionRemap::F_explicit_args) == 0 &&
+             (args_type == AT_varargs || args_type == AT_keyword_args)) {
+    // This remap takes no arguments, but it shares the wrapper with remaps
+    // that do, so nobody has checked yet that no arguments were passed.
+    indent(out, indent_level)
+      << "if (Dtool_CheckNoArgs(args"
+      << ((args_type == AT_keyword_args) ? ", kwds" : "") << ")) {\n";
+    ++open_scopes;
+    indent_level += 2;
   }
 
   while (extra_convert.is_text_available()) {
